@@ -76,7 +76,7 @@ type realRun struct {
 }
 
 // runReal materialises w under a fresh temporary directory and runs the real binary on it.
-// sink: "" (captured), "devfull" or "closedpipe".
+// sink: "" (captured), "devfull", "closedpipe" or "fullfile" (a regular file that cannot grow).
 func runReal(w World, sink string) realRun {
 	if realBin == "" {
 		panic(harnessFault{"HRSIM_REALBIN is not set"})
@@ -114,6 +114,10 @@ func runReal(w World, sink string) realRun {
 		args = append(args, re(a))
 	}
 	cmd := exec.Command(realBin, args...)
+	if sink == "fullfile" {
+		// a regular file that cannot grow (RLIMIT_FSIZE 0: every write fails with EFBIG, as ENOSPC would on a full disk)
+		cmd = exec.Command("/bin/sh", append([]string{"-c", `ulimit -f 0 && exec "$0" "$@"`, realBin}, args...)...)
+	}
 	cmd.Dir = abs(w.Cwd)
 	env := []string{"HOME=" + abs(w.Home), "USER=sim", "TZ=" + w.Zone, "PATH=/usr/bin:/bin"}
 	keys := make([]string, 0, len(w.Env))
@@ -130,6 +134,11 @@ func runReal(w World, sink string) realRun {
 	switch sink {
 	case "devfull":
 		f, err := os.OpenFile("/dev/full", os.O_WRONLY, 0)
+		must(err)
+		defer f.Close()
+		cmd.Stdout = f
+	case "fullfile":
+		f, err := os.OpenFile(filepath.Join(root, "stdout.txt"), os.O_WRONLY|os.O_CREATE|os.O_TRUNC, 0o644)
 		must(err)
 		defer f.Close()
 		cmd.Stdout = f
